@@ -134,6 +134,13 @@ def _mk(cid, r, blk, **f):
          "cont": f.get("cont") or (_pick(r, ["list", "tuple", "single"]) if len(sizes) == 1 else _pick(r, ["list", "tuple"])),
          "sc": f.get("sc") or (1.0 if bounds == "default" else _pick(r, [1.0, 0.3, 3.0], [0.7, 0.15, 0.15])),
          "eqb": bool(f.get("eqb", False)), "allpos": bool(f.get("allpos", False))}
+    # the variable signals may be slices of one larger base signal (SignalSlice writes through to its base)
+    via = f.get("via") or _pick(r, ["direct", "slices", "strided"], [0.88, 0.08, 0.04])
+    if via == "strided" and not (len(sizes) == 2 and sizes[0] - sizes[1] in (0, 1)):
+        via = "slices"
+    if via != "direct":
+        d["kinds"] = ["vec"] * len(sizes)
+    d["via"] = via
     return d
 
 
@@ -164,6 +171,9 @@ CORNERS = [
     dict(name="equal-bounds-entries", bounds="vv", eqb=True),
     dict(name="all-defaults", bounds="default", hist="default", tol="default", l1="default", l2="default", move=0.2),
     dict(name="equal-sized-signals-distinct-bounds", sizes=[3, 3, 3], bounds="vv", obj="invsum", hist="conv"),
+    dict(name="slices-of-one-base-signal", via="slices", sizes=[2, 3, 1]),
+    dict(name="strided-slices-of-one-base-signal", via="strided", sizes=[3, 3]),
+    dict(name="strided-slices-unequal", via="strided", sizes=[3, 2]),
     dict(name="long-history-small-move", obj="invsum", hist="conv", move=0.01, bounds="ss", sc=1.0),
 ]
 
@@ -186,17 +196,17 @@ def plan(tier, seed):
                 for mv in MOVES:
                     add("enum", sizes=lay, obj=obj, move=mv)
     # --- convergence block: sum c/x, tight tolerances, generous budget
-    lays_c = _layouts(2) + [[3], [4], [6], [3, 3], [1, 5], [2, 3, 4], [6, 6, 6], [1, 1, 1], [3, 3, 3]] if quick else _layouts(6)
+    lays_c = _layouts(3) + [[4], [5], [6], [1, 5], [4, 4], [2, 3, 4], [6, 6, 6], [5, 1, 6]] if quick else _layouts(6)
     for lay in lays_c:
         for mv in MOVES:
             for b in (["ss", "vv"] if quick else ["ss", "vv", "sv", "vs", "default"]):
                 add("conv", sizes=lay, obj="invsum", hist="conv", move=mv, bounds=b)
     # --- named corners
     for c in CORNERS:
-        for _ in range(6 if quick else 60):
+        for _ in range(8 if quick else 60):
             add("corner", **c)
     # --- random block
-    for _ in range(500 if quick else 12000):
+    for _ in range(800 if quick else 12000):
         add("rand")
     return cases
 
@@ -357,9 +367,15 @@ class _Family:
 
 
 def _perm_explains(q, xs, xl, eps):
-    """Necessary condition for 'q is a re-ordering of a vector lying in [xs, xl]' (diagnosis only)."""
-    qs = np.sort(q)
-    return bool(np.all(qs >= np.sort(xs) - eps) and np.all(qs <= np.sort(xl) + eps))
+    """True if the entries of q can be re-ordered into a vector lying in [xs-eps, xl+eps] (perfect matching in the
+    bipartite 'entry j fits interval i' graph).  Diagnosis only: used to name a refutation, never to find one."""
+    from scipy.optimize import linear_sum_assignment
+    eps = float(np.max(eps))
+    fits = (q[None, :] >= (xs - eps)[:, None]) & (q[None, :] <= (xl + eps)[:, None])
+    if not np.all(fits.any(axis=0)) or not np.all(fits.any(axis=1)):
+        return False
+    r, c = linear_sum_assignment(1.0 - fits)
+    return bool(np.all(fits[r, c]))
 
 
 # ===================================================================================== one case
@@ -469,7 +485,16 @@ def run_case(case, ctx):
 
     # ---------------------------------------------------------------- signals and network
     sigs = []
-    for i in range(nsig):
+    base = None
+    if case["via"] != "direct":
+        base = pym.Signal("base", np.zeros(n))
+        if case["via"] == "slices":
+            sigs = [base[int(cum[i]):int(cum[i + 1])] for i in range(nsig)]
+        else:
+            sigs = [base[0::2], base[1::2]]
+        for i, s_ in enumerate(sigs):
+            s_.state = x0[cum[i]:cum[i + 1]].copy()
+    for i in range(nsig if base is None else 0):
         seg = x0[cum[i]:cum[i + 1]].copy()
         kd = case["kinds"][i]
         if kd == "scalar":
@@ -615,33 +640,34 @@ def run_case(case, ctx):
         br = fam.bracket(Vt, delta, tol, l1, l2)
         if br is None:
             nfam += 1
+            if np.all(g < 0) and np.all(p > 0):         # only the multiplier range [l1init, l2init] is in the way
+                ctx.count("steps_volume_multiplier_outside_l1init_l2init")
             continue
         nvol += 1
         xs, xl, lam_s, lam_l = br
         vq = float(np.sum(q))
+        vol_ok = True
         if vq > float(np.sum(xl)) + delta:
+            vol_ok = False
             violate("volume/exceeds-target-beyond-bisection-tolerance", step=k, volume=vq, target=Vt,
                     upper_bound=float(np.sum(xl)), lam_interval=[lam_s, lam_l], l1l2tol=tol, previous=p, new=q)
         if vq < float(np.sum(xs)) - delta:
+            vol_ok = False
             violate("volume/below-reachable-target-beyond-bisection-tolerance", step=k, volume=vq, target=Vt,
                     lower_bound=float(np.sum(xs)), lam_interval=[lam_s, lam_l], l1l2tol=tol, previous=p, new=q)
+        # slice-wise: every signal holds its slice of the step (a wrong total is already reported above)
         eps = 1e-12 * (1.0 + np.abs(q))
         bad = (q > xl + eps) | (q < xs - eps)
         ctx.count("oc_step_components_compared", n)
-        if np.any(bad):
-            attributed = False
-            for i in range(nsig):
-                sl = slice(cum[i], cum[i + 1])
-                if np.any(bad[sl]) and np.array_equal(q[sl], p[sl]):
-                    violate("write-back/signal-keeps-previous-state", step=k, signal=i, state=q[sl],
-                            oc_step_between=[xs[sl], xl[sl]])
-                    attributed = True
-            if not attributed and _perm_explains(q, xs, xl, eps):
-                violate("write-back/new-design-assigned-to-wrong-signals-or-positions", step=k, new=q,
-                        oc_step_between=[xs, xl], entries=np.flatnonzero(bad))
-                attributed = True
-            if not attributed:
-                ctx.count("oc_step_mismatch_not_attributed")
+        if vol_ok and np.any(bad):
+            j = int(np.argmax(np.maximum(q - xl, xs - q)))
+            i = int(np.searchsorted(cum, j, side="right") - 1)
+            violate("write-back/signal-state-outside-its-slice-of-the-oc-step", step=k, signal=i, entry=j,
+                    state=q[cum[i]:cum[i + 1]], slice_of_oc_step_between=[xs[cum[i]:cum[i + 1]], xl[cum[i]:cum[i + 1]]],
+                    previous_state=p[cum[i]:cum[i + 1]], volume=vq, target=Vt,
+                    signals_bit_identical_to_previous=[ii for ii in range(nsig)
+                                                       if np.array_equal(q[cum[ii]:cum[ii + 1]], p[cum[ii]:cum[ii + 1]])],
+                    fits_after_reordering=_perm_explains(q, xs, xl, eps))
     ctx.count("steps_volume_judged", nvol)
     ctx.count("steps_volume_box_unreachable", nbox)
     ctx.count("steps_volume_family_unreachable", nfam)
@@ -690,11 +716,10 @@ def run_case(case, ctx):
                     conv = "violated"
                     j = int(np.argmax(np.maximum(xe - xl, xs - xe)))
                     mech = "convergence/final-design-not-at-analytic-optimum"
-                    if _perm_explains(xe, xs, xl, eps):
-                        mech = "convergence/analytic-optimum-reached-in-wrong-signals-or-positions"
                     violate(mech, entry=j, signal=int(np.searchsorted(cum, j, side="right") - 1), final=xe,
                             optimum_between=[xs, xl], distance=float(np.max(np.maximum(xe - xl, xs - xe))),
-                            iterations=nresp, lam_interval=[lam_s, lam_l])
+                            iterations=nresp, lam_interval=[lam_s, lam_l],
+                            fits_after_reordering=_perm_explains(xe, xs, xl, eps))
                 if len(D) >= 2:
                     # evidence for the iteration budget: responses used beyond ceil(max|x0-x*|/move)
                     over = nresp - int(math.ceil(float(np.max(np.abs(x0 - 0.5 * (xs + xl)))) / move))
@@ -704,7 +729,7 @@ def run_case(case, ctx):
         ctx.count("conv_" + conv)
 
     key = "|".join([kind + ("/" + case["zg"] if case["zg"] else ""), case["topo"], bk, f"nsig{nsig}", vk,
-                    f"mv{case['move']}", hk])
+                    f"mv{case['move']}", hk] + ([case["via"]] if case["via"] != "direct" else []))
     return {"key": key, "nontrivial": len(D) >= 2,
             "obs": {"n": n, "responses": nresp, "designs": len(D), "final_unrecorded": extra, "vol_judged": nvol,
                     "vol_box_unreachable": nbox, "vol_family_unreachable": nfam, "positive_gradient_steps": npos,
